@@ -178,6 +178,18 @@ func runKeys(it *KeyItem) (res KeyResult) {
 				outcome, detail = "usefail", err
 				return
 			}
+			// payloads a text-mode signature would canonicalise: bare and trailing newlines, CR LF, nothing at all, bytes
+			for _, extra := range []string{"two\nlines of " + it.ID, "trailing newline\n", "cr\r\nlf", "", "\x00\xff\n\r bytes"} {
+				xs, err := signature.SignString(extra, true, it.Format, ident)
+				if err != nil {
+					outcome, detail = "usefail", fmt.Errorf("signing %q: %w", extra, err)
+					return
+				}
+				if err := signature.VerifyString(extra, true, it.Format, rcpt, xs); err != nil {
+					outcome, detail = "usefail", fmt.Errorf("verifying the signature of %q: %w", extra, err)
+					return
+				}
+			}
 			// an altered message must not verify
 			if err := signature.VerifyString(string(msg)+"!", true, it.Format, rcpt, sig); err == nil {
 				outcome, detail = "wrongdata", fmt.Errorf("signature verifies for an altered message")
